@@ -56,13 +56,19 @@ type c12Fn struct {
 	sig  *types.Signature // evaluated by the harness from the expression (independent of avo)
 }
 
+// c12Produced: the texts of a case that was NOT printed by calling the printers directly (the CLI routes:
+// files written by build.Main under the configuration of a command line).
+type c12Produced struct{ stub, status, asm, astatus string }
+
 type c12Case struct {
-	desc    c12Desc
-	cfg     printer.Config
-	file    *ir.File
-	fns     []c12Fn
-	u       *c12Universe
-	pkgpath string
+	ctx      *build.Context // deferMain: the context before Result()/Compile (build.Main does both)
+	produced *c12Produced
+	desc     c12Desc
+	cfg      printer.Config
+	file     *ir.File
+	fns      []c12Fn
+	u        *c12Universe
+	pkgpath  string
 }
 
 var c12ReForeign = regexp.MustCompile(`\b(unsafe|q)\.`)
@@ -130,6 +136,12 @@ func c12ImplPackage(work string, c *c12Case, idx int) (string, error) {
 
 // c12BuildCase drives avo as the descriptor says.
 func c12BuildCase(d c12Desc, idx int, body bool, work string, st map[string]int) (*c12Case, error) {
+	return c12BuildCaseMain(d, idx, body, work, st, false)
+}
+
+// c12BuildCaseMain: with deferMain the build.Context is returned as the author left it (c.ctx): the caller
+// hands it to build.Main / build.Generate, which call Result() and run the passes.
+func c12BuildCaseMain(d c12Desc, idx int, body bool, work string, st map[string]int, deferMain bool) (*c12Case, error) {
 	c := &c12Case{desc: d}
 	c.cfg = printer.Config{Name: d.Tool, Pkg: d.Pkg}
 	if d.HasArgv {
@@ -272,6 +284,10 @@ func c12BuildCase(d c12Desc, idx int, body bool, work string, st map[string]int)
 			}
 			ctx.RET()
 		}
+	}
+	if deferMain {
+		c.ctx = ctx
+		return c, nil
 	}
 	file, err := ctx.Result()
 	if err != nil {
@@ -692,14 +708,16 @@ func c12Unstable(c *c12Case, fset *token.FileSet, af *ast.File, out, again strin
 var c12ReLinkDef = regexp.MustCompile(`^\[[^\]\n]+\]:\s+\S+\s*$`)
 
 // c12LinkDefThenOldHeading: finding F16b. The doc has a link-definition line and ends with a one-line
-// paragraph (blank line before it) that go/doc/comment would read as an old-style heading if something
+// paragraph (blank line or code block before it) that go/doc/comment would read as an old-style heading if something
 // followed it (isOldHeading: starts with an upper-case letter, ends with a letter or digit, none of
 // `;:!?+*/=[]{}_^°&§~%#@<">\`, `'` only as possessive, `.` only inside a word). The first format pass moves
 // the link definition to the END of the comment; only then is the last line followed by a blank line and
 // an unindented line, and the second pass rewrites it as `# heading`.
 func c12LinkDefThenOldHeading(doc []string) bool {
 	n := len(doc)
-	if n < 3 || strings.TrimSpace(doc[n-2]) != "" {
+	// the last line is a paragraph of its own: the line before it is blank, or an indented (code) line
+	// (go/format separates a code block from what follows by a blank line)
+	if n < 3 || (strings.TrimSpace(doc[n-2]) != "" && strings.TrimLeft(doc[n-2], " \t") == doc[n-2]) {
 		return false
 	}
 	def := false
@@ -798,7 +816,12 @@ func c12Emit(o *out, c *c12Case, st map[string]int) (stub, asm string, ok bool) 
 	wf := c12WellFormed(c)
 	st["wf_"+c12B01(wf)]++
 	o.emit("wf-stubs "+e.String(), c12B01(wf))
-	stub, status := c12Stubs(c.cfg, c.file)
+	var status string
+	if c.produced != nil {
+		stub, status = c.produced.stub, c.produced.status
+	} else {
+		stub, status = c12Stubs(c.cfg, c.file)
+	}
 	st["stubs_"+status]++
 	if status != "ok" {
 		o.emit("stubs "+e.String(), status)
@@ -809,7 +832,12 @@ func c12Emit(o *out, c *c12Case, st map[string]int) (stub, asm string, ok bool) 
 	// user text transported verbatim (Lean acceptor `acceptVerbatim`): generated-code comment, and every
 	// declaration equal to Stub() up to layout characters
 	o.emit("accept-verbatim "+e.String()+" "+hexs(stub), "ok")
-	asm, astatus := c12PrintAsm(c.cfg, c.file)
+	var astatus string
+	if c.produced != nil {
+		asm, astatus = c.produced.asm, c.produced.astatus
+	} else {
+		asm, astatus = c12PrintAsm(c.cfg, c.file)
+	}
 	if astatus == "ok" {
 		st["judged_cons"]++
 		o.emit("accept-cons "+fe.String()+" "+hexs(asm)+" "+hexs(stub), "ok")
@@ -1139,6 +1167,7 @@ type c12ListPkg struct {
 	SFiles            []string
 	IgnoredGoFiles    []string
 	IgnoredOtherFiles []string
+	Error             *struct{ Err string }
 }
 
 // c12Declared lists the functions a stub file declares (go/parser; independent of avo's list).
@@ -1154,6 +1183,206 @@ func c12Declared(stub string) []string {
 		}
 	}
 	return ns
+}
+
+var c12ReFoundIn = regexp.MustCompile(`found packages .* in (/\S+)$`)
+
+type c12Built struct {
+	c    *c12Case
+	enc  string
+	dir  string
+	stub string
+}
+
+// c12BuildPairs: the pairs (stub.go + asm.s + types.go written in b.dir, package path b.c.pkgpath of module m
+// rooted at mod) are listed, built, vetted and linked; one `accept-build` line per pair.
+func c12BuildPairs(mod string, cases []c12Built, o *out, st map[string]int) error {
+	run := func(args ...string) (string, error) {
+		cmd := exec.Command("go", args...)
+		cmd.Dir = mod
+		cmd.Env = append(os.Environ(), "GOFLAGS=-mod=mod", "GOWORK=off")
+		b, err := cmd.CombinedOutput()
+		return string(b), err
+	}
+	// 1. both files of a pair are selected or ignored together
+	listOut, err := run("list", "-e", "-json=ImportPath,GoFiles,SFiles,IgnoredGoFiles,IgnoredOtherFiles,Error", "./...")
+	if err != nil {
+		return fmt.Errorf("go list: %v: %s", err, listOut)
+	}
+	included := map[string]string{}
+	listErr := map[string]string{}
+	dec := json.NewDecoder(strings.NewReader(listOut))
+	for dec.More() {
+		var p c12ListPkg
+		if err := dec.Decode(&p); err != nil {
+			return fmt.Errorf("go list output: %v", err)
+		}
+		has := func(xs []string, x string) bool {
+			for _, y := range xs {
+				if y == x {
+					return true
+				}
+			}
+			return false
+		}
+		g, s := has(p.GoFiles, "stub.go"), has(p.SFiles, "asm.s")
+		ig, is := has(p.IgnoredGoFiles, "stub.go"), has(p.IgnoredOtherFiles, "asm.s")
+		switch {
+		case g && s:
+			included[p.ImportPath] = "both"
+		case ig && is:
+			included[p.ImportPath] = "neither"
+		default:
+			included[p.ImportPath] = "split"
+			if p.Error != nil {
+				// e.g. "found packages v2 (stub.go) and xxhash (types.go)": the stub is not in the package of the directory
+				included[p.ImportPath] = "list-error"
+				listErr[p.ImportPath] = p.Error.Err
+			}
+		}
+	}
+	// 2. every package whose pair is selected gets a Go file referencing every function the stub
+	// file DECLARES (function values: the linker must resolve each symbol)
+	for _, b := range cases {
+		if included[b.c.pkgpath] != "both" {
+			continue
+		}
+		ns := c12Declared(b.stub)
+		src := "package " + b.c.cfg.Pkg + "\n\n// C12Refs references every function declared in stub.go.\nfunc C12Refs() []any {\n\treturn []any{" + strings.Join(ns, ", ") + "}\n}\n"
+		os.WriteFile(filepath.Join(b.dir, "refs.go"), []byte(src), 0o644)
+	}
+	// 3. go build and go vet -asmdecl over the whole module; failures are attributed to packages
+	buildOut, berr := run("build", "./...")
+	vetOut, verr := run("vet", "-asmdecl", "./...")
+	bad := func(out string) map[string]string {
+		m := map[string]string{}
+		cur := ""
+		for _, l := range strings.Split(out, "\n") {
+			if strings.HasPrefix(l, "# ") {
+				cur = strings.Fields(l)[1]
+				continue
+			}
+			if strings.TrimSpace(l) == "" {
+				continue
+			}
+			key := cur
+			if key == "" {
+				for _, fn := range []string{"/asm.s", "/stub.go", "/refs.go", "/types.go"} {
+					if i := strings.Index(l, fn); i > 0 {
+						// the directory of the file, relative to the module root (nested for the CLI pairs)
+						d := l[:i]
+						if j := strings.LastIndexAny(d, " \t"); j >= 0 {
+							d = d[j+1:]
+						}
+						d = strings.TrimPrefix(d, "./")
+						if filepath.IsAbs(d) {
+							if r, err := filepath.Rel(mod, d); err == nil {
+								d = r
+							}
+						}
+						key = "m/" + filepath.ToSlash(d)
+						break
+					}
+				}
+			}
+			if key == "" {
+				// "found packages v2 (stub.go) and xxhash (types.go) in <dir>"
+				if mm := c12ReFoundIn.FindStringSubmatch(l); mm != nil {
+					if r, err := filepath.Rel(mod, mm[1]); err == nil {
+						key = "m/" + filepath.ToSlash(r)
+					}
+				}
+			}
+			if _, ok := m[key]; !ok {
+				m[key] = l
+			}
+		}
+		return m
+	}
+	bbad, vbad := map[string]string{}, map[string]string{}
+	if berr != nil {
+		bbad = bad(buildOut)
+	}
+	if verr != nil {
+		vbad = bad(vetOut)
+	}
+	// 4. link: package main calling C12Refs of every selected package that compiled
+	lbad := map[string]string{}
+	var linked []c12Built
+	for _, b := range cases {
+		if included[b.c.pkgpath] == "both" && bbad[b.c.pkgpath] == "" {
+			linked = append(linked, b)
+		}
+	}
+	if len(linked) > 0 {
+		var sb strings.Builder
+		sb.WriteString("package main\n\nimport (\n")
+		for i, b := range linked {
+			fmt.Fprintf(&sb, "\tl%d %q\n", i, b.c.pkgpath)
+		}
+		sb.WriteString(")\n\nvar sink [][]any\n\nfunc main() {\n")
+		for i := range linked {
+			fmt.Fprintf(&sb, "\tsink = append(sink, l%d.C12Refs())\n", i)
+		}
+		sb.WriteString("\tprintln(len(sink))\n}\n")
+		ldir := filepath.Join(mod, "cmd", "c12link")
+		if err := os.MkdirAll(ldir, 0o755); err != nil {
+			return err
+		}
+		os.WriteFile(filepath.Join(ldir, "main.go"), []byte(sb.String()), 0o644)
+		linkOut, lerr := run("build", "-o", filepath.Join(mod, "c12link.bin"), "./cmd/c12link")
+		if lerr != nil {
+			re := regexp.MustCompile(`relocation target (m/[A-Za-z0-9_/-]+)\.(\S+) not defined`)
+			for _, l := range strings.Split(linkOut, "\n") {
+				if m := re.FindStringSubmatch(l); m != nil {
+					if _, ok := lbad[m[1]]; !ok {
+						lbad[m[1]] = l
+					}
+				}
+			}
+			if len(lbad) == 0 {
+				return fmt.Errorf("go build of the linking executable failed without attributable output: %s", linkOut)
+			}
+		} else if out, err := exec.Command(filepath.Join(mod, "c12link.bin")).CombinedOutput(); err != nil || strings.TrimSpace(string(out)) != itoa(len(linked)) {
+			return fmt.Errorf("linked executable: %v: %s", err, out)
+		}
+	}
+	for _, b := range cases {
+		path := b.c.pkgpath
+		verdict := "ok"
+		switch {
+		case included[path] == "list-error":
+			verdict = "package-does-not-load"
+			bbad[path] = listErr[path]
+		case included[path] == "split" || included[path] == "":
+			verdict = "constraints-split"
+		case bbad[path] != "":
+			verdict = "build-failed"
+		case vbad[path] != "":
+			verdict = "vet-asmdecl"
+		case lbad[path] != "":
+			verdict = "link-failed"
+		}
+		st["pair_"+included[path]]++
+		if included[path] == "both" && bbad[path] == "" {
+			st["pair_linked"]++
+		}
+		detail := "-"
+		if verdict != "ok" {
+			detail = hexs(bbad[path] + " | " + vbad[path] + " | " + lbad[path])
+		}
+		o.emit("accept-build "+verdict+" "+detail+" "+b.enc, "ok")
+	}
+	if berr != nil && len(bbad) == 0 {
+		return fmt.Errorf("go build failed without attributable output: %s", buildOut)
+	}
+	if _, ok := bbad[""]; ok {
+		return fmt.Errorf("go build: unattributed failure: %s", bbad[""])
+	}
+	if _, ok := vbad[""]; ok {
+		return fmt.Errorf("go vet: unattributed failure: %s", vbad[""])
+	}
+	return nil
 }
 
 func c12RunBuild(args []string) error {
@@ -1181,13 +1410,7 @@ func c12RunBuild(args []string) error {
 	if err := os.WriteFile(filepath.Join(mod, "q", "q.go"), []byte(c12QSource), 0o644); err != nil {
 		return err
 	}
-	type built struct {
-		c    *c12Case
-		enc  string
-		dir  string
-		stub string
-	}
-	var cases []built
+	var cases []c12Built
 	var ds []c12Desc
 	if *f.replay != "" {
 		if ds, err = c12ReadDescs(*f.replay); err != nil {
@@ -1222,164 +1445,10 @@ func c12RunBuild(args []string) error {
 		e := &c12Enc{}
 		c12EncodeCfg(e, c.cfg)
 		c12EncodeFile(e, c.file)
-		cases = append(cases, built{c, e.String(), dir, stub})
+		cases = append(cases, c12Built{c, e.String(), dir, stub})
 	}
-	run := func(args ...string) (string, error) {
-		cmd := exec.Command("go", args...)
-		cmd.Dir = mod
-		cmd.Env = append(os.Environ(), "GOFLAGS=-mod=mod", "GOWORK=off")
-		b, err := cmd.CombinedOutput()
-		return string(b), err
-	}
-	// 1. both files of a pair are selected or ignored together
-	listOut, err := run("list", "-e", "-json=ImportPath,GoFiles,SFiles,IgnoredGoFiles,IgnoredOtherFiles", "./...")
-	if err != nil {
-		return fmt.Errorf("go list: %v: %s", err, listOut)
-	}
-	included := map[string]string{}
-	dec := json.NewDecoder(strings.NewReader(listOut))
-	for dec.More() {
-		var p c12ListPkg
-		if err := dec.Decode(&p); err != nil {
-			return fmt.Errorf("go list output: %v", err)
-		}
-		has := func(xs []string, x string) bool {
-			for _, y := range xs {
-				if y == x {
-					return true
-				}
-			}
-			return false
-		}
-		g, s := has(p.GoFiles, "stub.go"), has(p.SFiles, "asm.s")
-		ig, is := has(p.IgnoredGoFiles, "stub.go"), has(p.IgnoredOtherFiles, "asm.s")
-		switch {
-		case g && s:
-			included[p.ImportPath] = "both"
-		case ig && is:
-			included[p.ImportPath] = "neither"
-		default:
-			included[p.ImportPath] = "split"
-		}
-	}
-	// 2. every package whose pair is selected gets a Go file referencing every function the stub
-	// file DECLARES (function values: the linker must resolve each symbol)
-	for _, b := range cases {
-		if included[b.c.pkgpath] != "both" {
-			continue
-		}
-		ns := c12Declared(b.stub)
-		src := "package " + b.c.cfg.Pkg + "\n\n// C12Refs references every function declared in stub.go.\nfunc C12Refs() []any {\n\treturn []any{" + strings.Join(ns, ", ") + "}\n}\n"
-		os.WriteFile(filepath.Join(b.dir, "refs.go"), []byte(src), 0o644)
-	}
-	// 3. go build and go vet -asmdecl over the whole module; failures are attributed to packages
-	buildOut, berr := run("build", "./...")
-	vetOut, verr := run("vet", "-asmdecl", "./...")
-	bad := func(out string) map[string]string {
-		m := map[string]string{}
-		cur := ""
-		for _, l := range strings.Split(out, "\n") {
-			if strings.HasPrefix(l, "# ") {
-				cur = strings.Fields(l)[1]
-				continue
-			}
-			if strings.TrimSpace(l) == "" {
-				continue
-			}
-			key := cur
-			if key == "" {
-				for _, fn := range []string{"/asm.s", "/stub.go", "/refs.go", "/types.go"} {
-					if i := strings.Index(l, fn); i > 0 {
-						key = "m/" + filepath.Base(l[:i])
-						break
-					}
-				}
-			}
-			if _, ok := m[key]; !ok {
-				m[key] = l
-			}
-		}
-		return m
-	}
-	bbad, vbad := map[string]string{}, map[string]string{}
-	if berr != nil {
-		bbad = bad(buildOut)
-	}
-	if verr != nil {
-		vbad = bad(vetOut)
-	}
-	// 4. link: package main calling C12Refs of every selected package that compiled
-	lbad := map[string]string{}
-	var linked []built
-	for _, b := range cases {
-		if included[b.c.pkgpath] == "both" && bbad[b.c.pkgpath] == "" {
-			linked = append(linked, b)
-		}
-	}
-	if len(linked) > 0 {
-		var sb strings.Builder
-		sb.WriteString("package main\n\nimport (\n")
-		for i, b := range linked {
-			fmt.Fprintf(&sb, "\tl%d %q\n", i, b.c.pkgpath)
-		}
-		sb.WriteString(")\n\nvar sink [][]any\n\nfunc main() {\n")
-		for i := range linked {
-			fmt.Fprintf(&sb, "\tsink = append(sink, l%d.C12Refs())\n", i)
-		}
-		sb.WriteString("\tprintln(len(sink))\n}\n")
-		ldir := filepath.Join(mod, "cmd", "c12link")
-		if err := os.MkdirAll(ldir, 0o755); err != nil {
-			return err
-		}
-		os.WriteFile(filepath.Join(ldir, "main.go"), []byte(sb.String()), 0o644)
-		linkOut, lerr := run("build", "-o", filepath.Join(mod, "c12link.bin"), "./cmd/c12link")
-		if lerr != nil {
-			re := regexp.MustCompile(`relocation target (m/p[0-9]+)\.(\S+) not defined`)
-			for _, l := range strings.Split(linkOut, "\n") {
-				if m := re.FindStringSubmatch(l); m != nil {
-					if _, ok := lbad[m[1]]; !ok {
-						lbad[m[1]] = l
-					}
-				}
-			}
-			if len(lbad) == 0 {
-				return fmt.Errorf("go build of the linking executable failed without attributable output: %s", linkOut)
-			}
-		} else if out, err := exec.Command(filepath.Join(mod, "c12link.bin")).CombinedOutput(); err != nil || strings.TrimSpace(string(out)) != itoa(len(linked)) {
-			return fmt.Errorf("linked executable: %v: %s", err, out)
-		}
-	}
-	for _, b := range cases {
-		path := b.c.pkgpath
-		verdict := "ok"
-		switch {
-		case included[path] == "split" || included[path] == "":
-			verdict = "constraints-split"
-		case bbad[path] != "":
-			verdict = "build-failed"
-		case vbad[path] != "":
-			verdict = "vet-asmdecl"
-		case lbad[path] != "":
-			verdict = "link-failed"
-		}
-		st["pair_"+included[path]]++
-		if included[path] == "both" && bbad[path] == "" {
-			st["pair_linked"]++
-		}
-		detail := "-"
-		if verdict != "ok" {
-			detail = hexs(bbad[path] + " | " + vbad[path] + " | " + lbad[path])
-		}
-		o.emit("accept-build "+verdict+" "+detail+" "+b.enc, "ok")
-	}
-	if berr != nil && len(bbad) == 0 {
-		return fmt.Errorf("go build failed without attributable output: %s", buildOut)
-	}
-	if _, ok := bbad[""]; ok {
-		return fmt.Errorf("go build: unattributed failure: %s", bbad[""])
-	}
-	if _, ok := vbad[""]; ok {
-		return fmt.Errorf("go vet: unattributed failure: %s", vbad[""])
+	if err := c12BuildPairs(mod, cases, o, st); err != nil {
+		return err
 	}
 	st["pairs"] = len(cases)
 	st["cases"] = len(ds)
